@@ -696,8 +696,28 @@ def run(run):
     justify_rules(run, fx)
     undo(run, fx)
     justpool(run, fx)
+    try:
+        from . import c04 as c04_
+        cases_, bad_ = c04_.basechain_exec(run, fx)        # Segment::justify walks the chain of bases through nextSibling: it must be one finite chain (shared with C04)
+        lk_ = fx.one('graphite2::Segment::linkClusters')
+        if bad_:
+            run.violated('NOMUTPOS', 'the base chain justify walks is finite and complete (linkClusters interpreted)', lk_.where(), bad_)
+        else:
+            run.held('NOMUTPOS', 'the base chain justify walks is finite and complete (linkClusters interpreted)', lk_.where(), '%d abstract executions' % cases_)
+    except AnalysisBroken as ex:
+        run.broken('NOMUTPOS', 'the base chain justify walks is finite and complete (linkClusters interpreted)', str(ex), '')
     poolsize(run, fx)
     poolcount(run, fx)
+    try:
+        from . import ordint as O2_
+        cases_, bad_ = newjustify_exec(run, fx)
+        nj_ = fx.one('graphite2::Segment::newJustify')
+        if bad_:
+            run.violated('UNDO', 'newJustify carves a null-terminated free list (interpreted)', nj_.where(), bad_)
+        else:
+            run.held('UNDO', 'newJustify carves a null-terminated free list (interpreted)', nj_.where(), '%d abstract executions' % cases_)
+    except (AnalysisBroken, O2_.AnalysisBroken) as ex:
+        run.broken('UNDO', 'newJustify carves a null-terminated free list (interpreted)', str(ex), '')
     from . import ordint as O_
     try:
         from . import c02
@@ -976,4 +996,83 @@ def reverse_exec(run, fx, maxn=5):
                     return cases, '%s: reversing twice leaves m_dir = %r' % (desc, seg[PG + 'm_dir'])
             except O.Violation as v:
                 return cases, '%s: %s (%s)' % (desc, v.what, v.loc)
+    return cases, None
+
+
+def newjustify_exec(run, fx):
+    """JUSTPOOL by bounded execution: Segment::newJustify with an empty free list is interpreted for every growth count 1..4 and 0..2
+    justification levels.  The allocators are natives; a block from grzeroalloc is zero, a block from any other allocator holds marks
+    that are neither null nor a record.  Afterwards the record handed out has a null next, and the free list runs through exactly the
+    remaining records of the block and ENDS IN NULL -- the last record's next is never written by the carving loop, so it is null only
+    if the block came zero-filled (a wild next pointer there is handed out when a line needs one more record than the block has)."""
+    from . import ordint as O
+    fn = fx.one('graphite2::Segment::newJustify')
+    so = fx.fns_named('graphite2::SlotJustify::size_of')
+    if not so:
+        raise AnalysisBroken('SlotJustify::size_of not found')
+    PJ, PG, PF = 'graphite2::SlotJustify::', 'graphite2::Segment::', 'graphite2::Silf::'
+    cases = 0
+
+    class Wild:
+        pass
+    for count in range(1, 5):
+        for levels in range(0, 3):
+            S = O.Interp(fx).call(so[0], None, [levels])
+            blocks = []
+
+            def alloc(I, f, e, obj, a, zero, blocks=blocks, S=S):
+                nbytes = I.rv(a[0])
+                if not isinstance(nbytes, int) or nbytes % S:
+                    raise O.Violation('the pool block is %r bytes, not a whole number of %d-byte records' % (nbytes, S), f.loc(e))
+                # byte-addressed block: a record object at every multiple of the record size, padding elsewhere
+                recs = O.Vec([O.Rec({PJ + 'next': (O.Ptr(None) if zero else Wild()), PJ + 'values': O.It(O.Vec([0] * ((S - 8) // 2)), 0), '#': j // S}) if j % S == 0 else 'pad'
+                              for j in range(nbytes)])
+                blocks.append(recs)
+                return O.It(recs, 0)
+            nat = {'graphite2::grzeroalloc': lambda I, f, e, obj, a: alloc(I, f, e, obj, a, True),
+                   'graphite2::gralloc': lambda I, f, e, obj, a: alloc(I, f, e, obj, a, False),
+                   'malloc': lambda I, f, e, obj, a: alloc(I, f, e, obj, a, False), 'calloc': lambda I, f, e, obj, a: alloc(I, f, e, obj, [a[0]], True)}
+            silf = O.Rec({PF + 'm_numJusts': levels})
+            seg = O.Rec({PG + 'm_freeJustifies': O.Ptr(None), PG + 'm_silf': O.Ptr(silf), PG + 'm_bufSize': count, PG + 'm_justifies': O.Vec()})
+            it = O.Interp(fx, natives=nat)
+            it.MAX_STEPS = 5000
+            it.byte_records = S          # `justs + justSize * i` steps through the block in records
+            desc = 'newJustify with growth count %d, %d justification level(s)' % (count, levels)
+            cases += 1
+            try:
+                r = it.call(fn, seg, [])
+            except O.Violation as v:
+                return cases, '%s: %s (%s)' % (desc, v.what, v.loc)
+            if len(blocks) != 1:
+                return cases, '%s: %d blocks allocated' % (desc, len(blocks))
+            recs = blocks[0]
+
+            def rec_of(p):
+                if isinstance(p, O.It) and p.vec is recs:
+                    if p.idx % S == 0 and 0 <= p.idx < len(recs.items):
+                        return recs.items[p.idx]
+                    return 'outside'
+                if isinstance(p, O.Ptr):
+                    return p.rec
+                return 'wild'
+            first = rec_of(r)
+            if not isinstance(first, O.Rec) or first.get('#') != 0:
+                return cases, '%s: the record handed out is not the first record of the new block' % desc
+            nx = first[PJ + 'next']
+            if not (isinstance(nx, O.Ptr) and nx.rec is None):
+                return cases, '%s: the record handed out keeps a next link' % desc
+            seen, cur = [], seg[PG + 'm_freeJustifies']
+            while True:
+                rc = rec_of(cur)
+                if rc is None:
+                    break
+                if not isinstance(rc, O.Rec):
+                    return cases, ('%s: after the records %s the free list continues with a pointer that is neither null nor a record of the block -- the last record\'s next was never '
+                                   'written and the block is not zero-filled: the record after the last one is handed out from wherever that garbage points' % (desc, seen))
+                if rc['#'] in seen or len(seen) > count:
+                    return cases, '%s: the free list is cyclic' % desc
+                seen.append(rc['#'])
+                cur = rc[PJ + 'next']
+            if seen != list(range(1, count)):
+                return cases, '%s: the free list holds the records %s, expected %s' % (desc, seen, list(range(1, count)))
     return cases, None
